@@ -7,12 +7,16 @@ package c16
 import (
 	"bytes"
 	"fmt"
+	"os"
+	"reflect"
 	"runtime"
 	"sort"
 	"strconv"
 	"strings"
+	"sync"
 	"sync/atomic"
 	"time"
+	"unsafe"
 
 	"github.com/krotik/ecal/interpreter"
 	"github.com/krotik/ecal/parser"
@@ -68,7 +72,7 @@ t := r + s
 `},
 	// a thread which is running from the debugger's point of view: hold() is a
 	// Go function which blocks on a channel owned by the harness
-	"hold": {Src: "hold", BP: 3, BP2: 5, Holds: 3, Text: `n := 0
+	"hold": {Src: "hold", BP: 3, BP2: 5, Holds: 4, Text: `n := 0
 for i in [1, 2] {
   n := n + i
   hold(i)
@@ -79,11 +83,14 @@ func k(p) {
   return p
 }
 o := k(7)
+mutex mx {
+  hold(9)
+}
 `},
 	// function calls which return errors: at top level (empty call stack),
 	// inside two calls, and finally uncaught at top level
 	"err": {Src: "err", BP: 6, BP2: 20, Text: `func bad(x) {
-  raise("MyError", "detail", {1: x, "l": [x]})
+  raise("MyError", "detail", {1: x, "l": [x], "f": bad})
 }
 func mid(x) {
   y := x
@@ -133,8 +140,10 @@ type session struct {
 	lastSrc  *program
 	parsed   bool
 	stopped  bool
+	peek     peeker
 	dumpBuf  []byte
-	lastDump string
+	hung     bool          // a call into the debugger never returned
+	patience time.Duration // bound of quiesce
 }
 
 const maxActive = 2
@@ -146,7 +155,14 @@ func newSession() *session {
 	s.dbg = interpreter.NewECALDebugger(s.vs)
 	s.erp.Debugger = s.dbg
 	s.vs.SetValue("hold", &holdFunc{s})
-	s.dumpBuf = make([]byte, 1<<16)
+	if os.Getenv("VERIF_C16_DUMP") == "" { // (set to exercise the fallback)
+		s.peek = newPeeker(s.dbg)
+	}
+	s.patience = 20 * time.Second
+	if !s.peek.ok {
+		s.dumpBuf = make([]byte, 1<<16)
+		hx.E.Class("quiescence.by-goroutine-dump", 1)
+	}
 	return s
 }
 
@@ -191,6 +207,16 @@ func (s *session) active() []*thread {
 	return r
 }
 
+// running is true if a thread of the named program is active.
+func (s *session) running(name string) bool {
+	for _, th := range s.active() {
+		if th.prog == programs[name] {
+			return true
+		}
+	}
+	return false
+}
+
 // parse parses a program without running it.
 func (s *session) parse(name string) (*parser.ASTNode, error) {
 	p := programs[name]
@@ -232,13 +258,85 @@ func (s *session) threadMain(th *thread, ast *parser.ASTNode) {
 
 // ---------------------------------------------------------------------------
 // Quiescence. The harness issues a command only when every program thread is
-// (a) finished, (b) inside hold(), or (c) parked inside sync.Cond.Wait below
-// a debugger frame. (c) is read from a goroutine dump: the goroutine state
-// "sync.Cond.Wait" is set after the waiter has been added to the condition's
-// notify list, so a Continue issued afterwards cannot be lost. (The suspend
-// protocol publishes "not running" before it waits; a Continue in between is
-// lost. That window belongs to property C15, not to C16.)
+// (a) finished, (b) inside hold(), or (c) registered as a waiter on the
+// condition variable of its interrogation state, so that a Continue issued
+// afterwards cannot be lost. (The suspend protocol publishes "not running"
+// before it waits; a Continue in between is lost. That window belongs to
+// property C15, not to C16.)
+//
+// (c) is read in O(1) from the debugger's private tables (reflect/unsafe, read
+// only, under the debugger's own read lock): sync.Cond.Wait registers the
+// waiter (notifyList.wait++) before it releases L, Broadcast sets
+// notifyList.notify = wait. If the private layout is not the expected one
+// the harness falls back to reading goroutine dumps (state "sync.Cond.Wait"
+// below a debugger frame), which is exact as well but costs a stop-the-world.
+// Neither is used for a verdict, only to decide when to send the next command.
 // ---------------------------------------------------------------------------
+
+type peeker struct {
+	ok     bool
+	lock   *sync.RWMutex
+	states reflect.Value // map[uint64]*interrogationState
+}
+
+func newPeeker(dbg util.ECALDebugger) (p peeker) {
+	defer func() {
+		if recover() != nil {
+			p = peeker{}
+		}
+	}()
+	ed := reflect.ValueOf(dbg).Elem()
+	lk := ed.FieldByName("lock")
+	st := ed.FieldByName("interrogationStates")
+	if !lk.IsValid() || !st.IsValid() || st.Kind() != reflect.Map || st.Type().Key().Kind() != reflect.Uint64 ||
+		lk.Type() != reflect.TypeOf((*sync.RWMutex)(nil)) {
+		return peeker{}
+	}
+	et := st.Type().Elem()
+	if et.Kind() != reflect.Ptr || et.Elem().Kind() != reflect.Struct {
+		return peeker{}
+	}
+	cf, found := et.Elem().FieldByName("cond")
+	if !found || cf.Type != reflect.TypeOf((*sync.Cond)(nil)) {
+		return peeker{}
+	}
+	nf, found := reflect.TypeOf(sync.Cond{}).FieldByName("notify")
+	if !found || nf.Type.Kind() != reflect.Struct {
+		return peeker{}
+	}
+	w, ok1 := nf.Type.FieldByName("wait")
+	n, ok2 := nf.Type.FieldByName("notify")
+	if !ok1 || !ok2 || w.Type.Kind() != reflect.Uint32 || n.Type.Kind() != reflect.Uint32 {
+		return peeker{}
+	}
+	return peeker{ok: true, lock: (*sync.RWMutex)(lk.UnsafePointer()), states: st}
+}
+
+// waiting reports whether the thread is registered as a waiter on its
+// interrogation condition. known=false: the answer could not be read now.
+func (p peeker) waiting(tid uint64) (waiting, known bool) {
+	defer func() {
+		if recover() != nil {
+			waiting, known = false, false
+		}
+	}()
+	if !p.lock.TryRLock() {
+		return false, false
+	}
+	defer p.lock.RUnlock()
+	is := p.states.MapIndex(reflect.ValueOf(tid))
+	if !is.IsValid() || is.IsNil() {
+		return false, true
+	}
+	cond := is.Elem().FieldByName("cond")
+	if cond.IsNil() {
+		return false, true
+	}
+	nl := cond.Elem().FieldByName("notify")
+	w := atomic.LoadUint32((*uint32)(unsafe.Pointer(nl.FieldByName("wait").UnsafeAddr())))
+	n := atomic.LoadUint32((*uint32)(unsafe.Pointer(nl.FieldByName("notify").UnsafeAddr())))
+	return w != n, true
+}
 
 type gstate struct {
 	state    string
@@ -334,7 +432,7 @@ func (g gstate) parked() bool {
 // quiesce waits until no program thread can move without the harness.
 // It returns false if that state was not reached within the bound.
 func (s *session) quiesce() bool {
-	deadline := time.Now().Add(20 * time.Second)
+	deadline := time.Now().Add(s.patience)
 	for i := 0; ; i++ {
 		n := 0
 		for _, th := range s.threads {
@@ -354,24 +452,35 @@ func (s *session) quiesce() bool {
 		if i == 0 {
 			runtime.Gosched() // let a thread which was just woken run to its next stop
 		}
-		held := 0
-		for _, th := range s.threads {
-			if !th.over && !th.open && th.inHold() {
-				held++
+		ok := true
+		if s.peek.ok {
+			for _, th := range s.threads {
+				if th.over || (!th.open && th.inHold()) {
+					continue
+				}
+				if w, known := s.peek.waiting(th.tid); !known || !w {
+					ok = false
+					break
+				}
 			}
-		}
-		if held == n {
-			return true // all inside hold(): nothing left for them to do but block
-		}
-		gs := s.dump()
-		ok := len(gs) == n
-		for _, g := range gs {
-			if !g.parked() {
-				ok = false
+		} else {
+			held := 0
+			for _, th := range s.threads {
+				if !th.over && !th.open && th.inHold() {
+					held++
+				}
+			}
+			if held < n {
+				gs := s.dump()
+				ok = len(gs) == n
+				for _, g := range gs {
+					if !g.parked() {
+						ok = false
+					}
+				}
 			}
 		}
 		if ok {
-			s.lastDump = fmt.Sprintf("%+v", gs)
 			return true
 		}
 		if time.Now().After(deadline) {
@@ -398,13 +507,9 @@ type tview struct {
 }
 
 func (s *session) view() (map[uint64]tview, *hx.Failure) {
-	var res interface{}
-	var err error
-	if f := hx.Guard(func() { res, err = s.dbg.HandleInput("status") }); f != nil {
+	res, f := s.status()
+	if f != nil {
 		return nil, f
-	}
-	if err != nil {
-		return nil, hx.Failf("status-error", "status returned an error: %v", err)
 	}
 	out := map[uint64]tview{}
 	m, ok := res.(map[string]interface{})
@@ -449,6 +554,18 @@ func sortedTids(m map[uint64]tview) []uint64 {
 	return r
 }
 
+// owns is true if the thread owns an ECAL mutex.
+func (s *session) owns(tid uint64) bool {
+	s.erp.MutexesMutex.Lock()
+	defer s.erp.MutexesMutex.Unlock()
+	for _, o := range s.erp.MutexeOwners {
+		if o == tid {
+			return true
+		}
+	}
+	return false
+}
+
 // stateLabel names the debugger state a command meets.
 func (s *session) stateLabel(v map[uint64]tview) string {
 	var parts []string
@@ -462,6 +579,9 @@ func (s *session) stateLabel(v map[uint64]tview) string {
 			}
 			if tv.depth >= 2 {
 				l += "-deep"
+			}
+			if s.owns(th.tid) {
+				l += "-mutex"
 			}
 			parts = append(parts, l)
 		case tv.suspended && tv.hasErr:
@@ -506,16 +626,83 @@ func (s *session) stateLabel(v map[uint64]tview) string {
 // Driving.
 // ---------------------------------------------------------------------------
 
-func (s *session) cmd(line string) *hx.Failure {
+// callBound bounds every call into the debugger. No debugger entry point waits
+// for a thread by design (StopThreads with a duration only sleeps), so a call
+// which has not returned after this time is stuck on a lock which is held for
+// good (or, for inject, inside a non-terminating expression - the generated
+// expressions terminate).
+const callBound = 5 * time.Second
+
+// bounded runs a call into the debugger on its own goroutine, contains a
+// panic and bounds the wait. After a timeout the session is unusable.
+func (s *session) bounded(sig, what string, f func()) *hx.Failure {
+	if s.hung {
+		return hx.Failf(sig, "%s: not attempted, an earlier call never returned", what)
+	}
+	ch := make(chan *hx.Failure, 1)
+	go func() { ch <- hx.Guard(f) }()
+	t := time.NewTimer(callBound)
+	defer t.Stop()
+	select {
+	case fl := <-ch:
+		return fl
+	case <-t.C:
+		s.hung = true
+		return hx.Failf(sig, "%s did not return within %v; program goroutines: %s", what, callBound, s.where())
+	}
+}
+
+// call sends one command line.
+func (s *session) call(line string) (res interface{}, err error, f *hx.Failure) {
+	w := ""
+	if fl := strings.Fields(line); len(fl) > 0 {
+		w = fl[0]
+	}
+	f = s.bounded("hang:"+w, fmt.Sprintf("HandleInput(%q)", line), func() { res, err = s.dbg.HandleInput(line) })
+	return
+}
+
+// status is the probe which follows every command: it must answer.
+func (s *session) status() (res interface{}, f *hx.Failure) {
 	var err error
-	if f := hx.Guard(func() { _, err = s.dbg.HandleInput(line) }); f != nil {
+	if f = s.bounded("lock-held", "HandleInput(\"status\")", func() { res, err = s.dbg.HandleInput("status") }); f != nil {
+		return nil, f
+	}
+	if err != nil {
+		return nil, hx.Failf("status-error", "status returned an error: %v", err)
+	}
+	return res, nil
+}
+
+// probeSource is a source name no breakpoint uses: "rmbreak <probeSource>"
+// takes the debugger's write lock and changes nothing.
+const probeSource = "c16probe"
+
+// writeProbe checks that the debugger's lock can still be taken for writing
+// (a read lock which was left held does not stop "status", which only reads).
+func (s *session) writeProbe() *hx.Failure {
+	var err error
+	line := "rmbreak " + probeSource
+	if f := s.bounded("lock-held", fmt.Sprintf("HandleInput(%q)", line), func() { _, err = s.dbg.HandleInput(line) }); f != nil {
+		return f
+	}
+	if err != nil {
+		return hx.Failf("probe-error", "%q returned an error: %v", line, err)
+	}
+	return nil
+}
+
+// cmd sends a command which is part of building a state: it must succeed.
+func (s *session) cmd(line string) *hx.Failure {
+	_, err, f := s.call(line)
+	if f != nil {
 		return f
 	}
 	if err != nil {
 		return hx.Failf("setup-error", "%q returned %v", line, err)
 	}
 	if !s.quiesce() {
-		return hx.Failf("no-quiescence", "after %q", line)
+		return hx.Failf("no-quiescence", "after %q; program goroutines: %s", line, s.where())
 	}
 	return nil
 }
@@ -564,7 +751,7 @@ func (s *session) stopThreads() (bool, *hx.Failure) {
 	if n > 1 {
 		return false, nil
 	}
-	if f := hx.Guard(func() { s.dbg.StopThreads(200 * time.Microsecond) }); f != nil {
+	if f := s.bounded("hang:StopThreads", "StopThreads", func() { s.dbg.StopThreads(200 * time.Microsecond) }); f != nil {
 		return false, f
 	}
 	s.stopped = true
@@ -586,16 +773,16 @@ func (s *session) openHolds() {
 // (repeatedly) and every program must complete.
 func (s *session) finish() *hx.Failure {
 	if !s.quiesce() {
-		return hx.Failf("no-quiescence", "before the final resume")
+		return hx.Failf("no-quiescence", "before the final resume; program goroutines: %s", s.where())
 	}
 	if len(s.active()) == 0 {
 		return nil
 	}
-	var res interface{}
-	if f := hx.Guard(func() {
-		s.dbg.BreakOnStart(false)
-		res, _ = s.dbg.HandleInput("status")
-	}); f != nil {
+	if f := s.bounded("hang:BreakOnStart", "BreakOnStart(false)", func() { s.dbg.BreakOnStart(false) }); f != nil {
+		return f
+	}
+	res, f := s.status()
+	if f != nil {
 		return f
 	}
 	if m, ok := res.(map[string]interface{}); ok {
@@ -607,7 +794,7 @@ func (s *session) finish() *hx.Failure {
 			sort.Strings(keys)
 			for _, k := range keys {
 				src := strings.Split(k, ":")[0]
-				if f := hx.Guard(func() { s.dbg.RemoveBreakPoint(src, -1) }); f != nil {
+				if f := s.bounded("hang:RemoveBreakPoint", "RemoveBreakPoint", func() { s.dbg.RemoveBreakPoint(src, -1) }); f != nil {
 					return f
 				}
 			}
@@ -616,7 +803,7 @@ func (s *session) finish() *hx.Failure {
 	s.openHolds()
 	for round := 0; round < 400; round++ {
 		if !s.quiesce() {
-			return hx.Failf("no-quiescence", "during the final resume")
+			return hx.Failf("no-quiescence", "during the final resume; program goroutines: %s", s.where())
 		}
 		if len(s.active()) == 0 {
 			return nil
@@ -629,8 +816,8 @@ func (s *session) finish() *hx.Failure {
 		for _, tid := range sortedTids(v) {
 			if v[tid].suspended {
 				n++
-				var err error
-				if f := hx.Guard(func() { _, err = s.dbg.HandleInput(fmt.Sprintf("cont %d resume", tid)) }); f != nil {
+				_, err, f := s.call(fmt.Sprintf("cont %d resume", tid))
+				if f != nil {
 					return f
 				}
 				if err != nil {
@@ -645,7 +832,7 @@ func (s *session) finish() *hx.Failure {
 			for _, th := range s.active() {
 				ids = append(ids, fmt.Sprint(th.tid))
 			}
-			return hx.Failf("stuck-thread", "threads %v are parked but the debugger reports no suspended thread; status threads: %+v; goroutines: %s; last dump %s", ids, v, s.where(), s.lastDump)
+			return hx.Failf("stuck-thread", "threads %v are parked but the debugger reports no suspended thread; status threads: %+v; goroutines: %s", ids, v, s.where())
 		}
 	}
 	return hx.Failf("stuck-thread", "threads still suspended after 400 resume rounds")
@@ -654,25 +841,36 @@ func (s *session) finish() *hx.Failure {
 // close tears the session down. Threads which could not be finished are
 // killed through StopThreads as a last resort.
 func (s *session) close() {
-	if len(s.active()) > 0 {
+	if !s.hung && len(s.active()) > 0 {
+		s.patience = 2 * time.Second
 		s.openHolds()
-		for round := 0; round < 100 && s.quiesce() && len(s.active()) > 0; round++ {
-			hx.Guard(func() {
+		for round := 0; round < 100 && !s.hung && s.quiesce() && len(s.active()) > 0; round++ {
+			s.bounded("teardown", "teardown", func() {
 				s.dbg.BreakOnStart(false)
 				s.dbg.BreakOnError(false)
-				if v, f := s.view(); f == nil {
-					for tid, tv := range v {
-						if tv.suspended {
+				res, _ := s.dbg.HandleInput("status")
+				m, _ := res.(map[string]interface{})
+				bps, _ := m["breakpoints"].(map[string]bool)
+				var srcs []string
+				for k := range bps {
+					srcs = append(srcs, strings.Split(k, ":")[0])
+				}
+				for _, src := range srcs {
+					s.dbg.RemoveBreakPoint(src, -1)
+				}
+				ths, _ := m["threads"].(map[string]map[string]interface{})
+				for k, v := range ths {
+					if r, ok := v["threadRunning"].(bool); ok && !r {
+						if tid, err := strconv.ParseUint(k, 10, 64); err == nil {
 							s.dbg.Continue(tid, util.Resume)
 						}
 					}
 				}
-				s.dbg.StopThreads(0)
 			})
 		}
-		if len(s.active()) > 0 {
-			hx.E.Class("teardown.leaked-thread", 1)
-		}
+	}
+	if len(s.active()) > 0 {
+		hx.E.Class("teardown.leaked-thread", 1)
 	}
 	s.erp.Cron.Stop()
 }
